@@ -110,6 +110,14 @@ def generate(tier, seed, casedir, variant):
         for j in range(per_kind):
             c = rand_cfg(rng, kind, small_store=(j % 3 == 0), skew={1: "space_ahead", 2: "time_ahead"}.get(j % 4) if kind == "nonstatio" else None)
             c["start"], c["every"] = grid[(j * 7 + KINDS.index(kind) * 3) % len(grid)] if tier == "quick" else grid[j % len(grid)]
+            if kind == "nonstatio" and j % 4 == 3:
+                # more points kept along an axis than candidates drawn along it (they are picked from the candidate grid)
+                if j % 8 == 3:
+                    c["sel_t"] = max(c["sel_t"], 2); c["cand_t"] = c["sel_t"] - 1; c["cand_x"] = max(c["cand_x"], c["sel_x"] + 1, c["sel_t"] + 1)
+                else:
+                    c["sel_x"] = max(c["sel_x"], 2); c["cand_x"] = c["sel_x"] - 1; c["cand_t"] = max(c["cand_t"], c["sel_t"] + 1, c["sel_x"] + 1)
+                c["nt_start"], c["n_start"] = max(c["nt_start"], c["sel_t"]), max(c["n_start"], c["sel_x"])
+                c["nt"] = c["nt_start"] + 3 * c["sel_t"]; c["n"] = c["n_start"] + 3 * c["sel_x"]
             cfgs.append(c)
     for cid, cfg in enumerate(cfgs):
         try:
